@@ -204,8 +204,8 @@ ReceiverHistoryFree == (Mode = "reuse" /\ pc = "done") =>
   IF hist[1].shape = 1 THEN pk[2] = Norm(D0, hist[1].w) ELSE pk[1] = Norm(D0, hist[1].start)
 
 \* ---- limits (C08): every boundary value is decided, and never both ways ----
-LimitsDecided == (Mode = "limits" /\ pk[1].k # "NONE") => (WF(D0, pk[1]) # Over(pk[1]))
-LimitsRef == (Mode = "limits" /\ pc = "done") => ((prov[1].k # "NONE") = WF(D0, pk[1]))
+LimitsDecided == (Mode = "limits" /\ pk[1].k # "NONE") => (WFAny(D0, pk[1]) # OverAny(pk[1]))
+LimitsRef == (Mode = "limits" /\ pc = "done") => ((prov[1].k # "NONE") = WFAny(D0, pk[1]))
 \* ---- variants (C04): every variant decodes to the value, every inflated encoding is refused
 VariantsDecode == (Mode = "variants" /\ pc = "vdone") => pk[2] = Norm(D0, pk[1])
 InflatedRefused == (Mode = "variants" /\ pc = "idone") => pk[2] = None
